@@ -20,6 +20,11 @@ CHECKS = {
         technique="fault enumeration steered and judged by TLA+: TLC-generated histories x every file-system operation of the real store as crash point (strict in-memory FS via hook H1); crash traces validated by TLC against the contract (Atomic/Durable/RebuildSafe/Repairable); rebuild phases with crashes model-checked in the design spec",
         text="Every mutating FS operation (create/write/sync/rename/remove) issued by the real store during each explored history is used as the point where durable storage stops; the recovered state and all lookups, before and after a re-run of the rebuild, are validated by TLC against the crash contract. Exhaustive over crash points for the explored histories; histories are TLC behaviours of the design spec plus seeded ones, plus one >1000-signature history whose rebuild really chunks.",
         note=TRUST + "; Pebble's strict MemFS is the durability model (only synced data survives); torn single writes are not modelled"),
+    "C18": dict(
+        level="model_checking", ref="3/C18",
+        technique="TLA+ contract (SigStoreAbs + TMigrate: a success is never short) and design specs SigStoreJson/SigStorePebble model-checked by TLC; recorded migrate/export/add/get traces incl. every truncation point validated by TLC; SaveDatabase's strace'd system-call sequence validated against SaveSpec with a crash explored after every prefix",
+        text="TLC validates traces of the real stores: migrate+export round trips (repeated IDs, lists crossing the 1000-entry batch boundary), every byte-truncation point of an encoded file (error or complete result, never a short success), add/addbatch/get with full field-for-field payload equality on both back ends, save+load; the atomic-save clause is decided on the real system-call sequence by a TLA+ protocol spec that explores a crash after each call.",
+        note=TRUST + "; rename(2) atomic and ordered after fsync; migrated IDs non-empty"),
 }
 
 NOT_YET = {}
